@@ -172,6 +172,9 @@ def parseOp (ws : List String) : Option Op :=
   | ["nth", it, k] => k.toNat?.map (.nth it)
   | ["nth_back", it, k] => k.toNat?.map (.nth_back it)
   | ["count", it] => some (.count it)
+  | ["views", r] => some (.views r)
+  | ["iter_views", it] => some (.iter_views it)
+  | ["clone_from_iter", it, src] => some (.clone_from_iter it src)
   | ["size_hint", it] => some (.size_hint it)
   | ["len", it] => some (.len it)
   | ["as_slice", it] => some (.as_slice it)
@@ -284,7 +287,7 @@ def idBound (w : World) : Op → Nat
   | .clone_from _ r =>
     (match w.get r with | some (.vec v) => (if v.isDefault then 0 else v.len) | _ => 0)
   | .extend_from_within r _ _ | .clone r _ => (match w.get r with | some (.vec v) => (if v.isDefault then 0 else v.len) | _ => 0)
-  | .clone_iter it _ => (match w.get it with | some (.intoIter v _) => (if v.isDefault then 0 else v.len) | _ => 0)
+  | .clone_iter it _ | .clone_from_iter _ it => (match w.get it with | some (.intoIter v _) => (if v.isDefault then 0 else v.len) | _ => 0)
   | .deserialize _ _ sc | .deserialize_in_place _ _ sc => (sc.filter (fun i => match i with | .val _ => true | _ => false)).length
   | _ => 0
 
